@@ -231,7 +231,7 @@ def find_fn(units, name, ut):
 
 
 def write_replay(check, ob, rec):
-    d = os.path.join(os.path.dirname(os.path.dirname(check.work)), 'replays')
+    d = check.replay_dir
     os.makedirs(d, exist_ok=True)
     path = os.path.join(d, re.sub(r'[^\w.-]+', '_', ob.name) + '.replay.json')
     json.dump(rec, open(path, 'w'), indent=1, default=str)
